@@ -165,6 +165,57 @@ def reference_vectors(run):
                 break
 
 
+def spec_on_vectors(run, tier, ulaw):
+    """spec <- real data: TLC runs the specification's decoder on the first commands of the shipped vectors."""
+    audio = os.path.join(os.path.dirname(common.REPO_SRC), "tests", "audio")
+    cases, refs = [], []
+    fuel = 12 if tier == "quick" else 40
+    for name in ("123_1pcbe", "123_1pcle", "123_1ulaw", "123_2pcbe", "123_2pcle", "123_2ulaw"):
+        d = open(os.path.join(audio, name + "_shn.sph"), "rb").read()
+        hs = int(d.split(b"\n")[1])
+        body = d[hs:]
+        if body[:4] != b"ajkg":
+            raise common.MachineryError("reference vector %s is not shorten-compressed" % name)
+        nbytes = min(len(body) - 5, 600 * fuel)
+        bits = []
+        for byte in body[5:5 + nbytes]:
+            for k in range(7, -1, -1):
+                bits.append((byte >> k) & 1)
+        cases.append({"version": int(body[4]), "bits": bits, "fuel": fuel})
+        w = wave.open(os.path.join(audio, name + ".wav"))
+        ref = np.frombuffer(w.readframes(w.getnframes()), dtype="<i%d" % w.getsampwidth())
+        if w.getnchannels() > 1:
+            ref = ref.reshape(-1, w.getnchannels())
+        w.close()
+        refs.append((name, ref))
+    d = tempfile.mkdtemp(prefix="verif_sv_")
+    try:
+        inp, out = os.path.join(d, "c.json"), os.path.join(d, "t.json")
+        json.dump(cases, open(inp, "w"))
+        r = common.tlc("ShortenVectors", "ShortenVectors.cfg", workdir=d, workers=1, env={"IN_FILE": inp, "OUT_FILE": out},
+                       timeout=1800, jvm=("-Xss512m",))
+        rows = json.load(open(out))
+    finally:
+        shutil.rmtree(d, ignore_errors=True)
+    total = 0
+    for (name, ref), row in zip(refs, rows):
+        chans = row["out"]
+        n = min(len(c) for c in chans)
+        if n == 0 or row["err"] not in ("nonterminating", "done"):
+            raise common.MachineryError("specification decoder produced nothing for %s (%s)" % (name, row["err"]))
+        got = np.array([c[:n] for c in chans], dtype=np.int64).T
+        if row["hdr"]["ftype"] in (0, 8):
+            got = ulaw[got]
+        got = got.reshape(-1) if ref.ndim == 1 else got
+        total += n
+        run.evaluations += 1
+        if not np.array_equal(got, ref[:n]):
+            # the specification's reading of the format disagrees with data from the original encoder: the
+            # specification (not the code) is wrong - a machinery failure, never a violation of C13
+            raise common.MachineryError("Shorten.tla's decoder disagrees with reference vector %s within the first %d frames" % (name, n))
+    run.extra["spec_decoder_on_reference_vectors"] = {"vectors": len(rows), "frames_compared": total, "commands_per_vector": fuel}
+
+
 def run(tier, seed):
     run = common.Run("C13", tier, seed)
     rng = random.Random(seed)
@@ -215,6 +266,7 @@ def run(tier, seed):
     b = behs[0]
     run.sample({"hdr": b["hdr"], "commands": b["note"], "n_bits": len(b["bits"]), "samples": b["data"]})
     reference_vectors(run)
+    spec_on_vectors(run, tier, ulaw)
     run.not_decided.append("mu-law streams with a bit shift > 0 (rows 1-12 of shorten's own outward table have no independent definition offline): not generated")
     run.extra["rule"] = "exhaustive tiny instances + %d simulated behaviours (versions 1-2, S16HL/S16LH/AU1/AU2, 1-3 channels, block sizes 1-8 with shrinking changes, nmean 0-4, maxnlpc 0-3, bit shifts 0-3)" % len(behs)
     return run.finish()
